@@ -130,6 +130,24 @@ def statement_cases():
             v = rt.assignable(tk, leaf[1])
             yield (f"let:{tname}={leaf[2]}", in_handler(f"let x: {tname} = {leaf[2]};"), v)
             yield (f"const:{tname}={leaf[2]}", in_handler(f"const x: {tname} = {leaf[2]};"), v)
+    # ... and with an operator expression on the right: the *result type* of the operator is what is assigned
+    num = [l for l in rt.all_leaves() if l[1] in ("n", "I", "U", "D")]
+    shapes = []
+    for l, r in itertools.product(num, repeat=2):
+        for op in ("+", "-", "*", "/", "%", "&", "|", "^"):
+            shapes.append((("bin", op, l, r), rt.show(("bin", op, l, r))))
+        shapes.append((("tern", ("leaf", "B", "a.b"), l, r), f"(a.b ? {l[2]} : {r[2]})"))
+    for e, text in shapes:
+        v, k = rt.typeof(e)
+        for tname, tk in (("int", "I"), ("uint", "U"), ("double", "D")):
+            if v == rt.REJ:
+                verdict = R
+            elif v != rt.OK or k in (None, "nI"):
+                verdict = U
+            else:
+                verdict = rt.assignable(tk, k)
+            yield (f"let-expr:{tname}={text}", in_handler(f"let x: {tname} = {text};"), verdict)
+            yield (f"write-expr:{tname}={text}", in_handler(f"a.{ {'int': 'i', 'uint': 'u', 'double': 'd'}[tname] } = {text};"), verdict)
     for leaf in rt.all_leaves():
         k = leaf[1]
         v = R if k in ("void", "null", "[]") else A
